@@ -98,9 +98,23 @@ def table(ctx, spec, mod, funcs, live, stub, strat, text, src, rw=None):
                     expect(name, entry, with_default(src_anno), "ignore-untraced-keeps-source")
         if strat == EAS.OMIT and f.get("recv_anno") and f["where"] in ("method", "inner", "deep", "genmethod", "asyncmethod", "property", "subproperty") and "self" in info["args"]:
             return ctx.fail("C13/omit-kept-source-annotation", spec, f"{where} self: {info['args']['self'][0]}\n{src}\n{text}")
-        for v in (f["varargs"], f["varkw"]):
-            if v and v in info["args"] and v not in at:
-                return ctx.fail("C13/annotation-invented", spec, f"{where} {v}: {info['args'][v][0]}\n{src}\n{text}")
+        for v, v_anno in ((f["varargs"], int), (f["varkw"], str)):
+            # variadic parameters are never traced here; the source annotates them when it annotates the return
+            v_src = v_anno if (v and f["ret_anno"]) else None
+            v_entry = info["args"].get(v) if v else None
+            any_anno |= v_src is not None
+            if not v or v in at:
+                continue
+            if v_src is not None and strat == EAS.OMIT:
+                if v_entry is not None:
+                    return ctx.fail("C13/omit-kept-source-annotation", spec, f"{where} {v}: {v_entry[0]}\n{src}\n{text}")
+            elif v_src is not None and strat == EAS.REPLICATE:
+                expect(v, v_entry, v_src, "replicate-source")
+            elif v_src is not None:
+                if v_entry is not None:  # as for named parameters: an untraced position may keep its source annotation or show none
+                    expect(v, v_entry, v_src, "ignore-untraced-keeps-source")
+            elif v_entry is not None:
+                return ctx.fail("C13/annotation-invented", spec, f"{where} {v}: {v_entry[0]}\n{src}\n{text}")
         # return position
         ret_src = eval(f["ret_anno"], ns) if f["ret_anno"] else None
         any_anno |= ret_src is not None
